@@ -43,7 +43,7 @@ func loadRepo(overlay map[string][]byte) (*Loaded, error) {
 	if len(errs) > 0 {
 		return nil, fmt.Errorf("load errors:\n%s", strings.Join(errs, "\n"))
 	}
-	prog, spkgs := ssautil.AllPackages(pkgs, ssa.BuilderMode(0))
+	prog, spkgs := ssautil.AllPackages(pkgs, ssa.GlobalDebug)
 	prog.Build()
 	l := &Loaded{Pkgs: pkgs, Prog: prog, SSA: map[string]*ssa.Package{}, ByPath: map[string]*packages.Package{}}
 	for i, p := range pkgs {
